@@ -402,13 +402,13 @@ def gen_smiles(rng, ctx):
 PROFILES = {
     # relative weights of op kinds; per run a random subset is switched off (swarm)
     "C11": dict(set_preset=6, set_table=8, set_bad=4, get=1, get_preset=1, get_alphabet=2, mutate=4,
-                decode=30, encode=14, decode_fail=5, encode_fail=3, flood=2, observe=2, alpha_decode=0, util=2, repeat=8),
+                decode=30, encode=14, decode_fail=5, encode_fail=3, flood=2, observe=2, alpha_decode=0, util=2, repeat=8, deep=1),
     "C12": dict(set_preset=8, set_table=10, set_bad=14, get=10, get_preset=8, get_alphabet=8, mutate=16,
-                decode=8, encode=4, decode_fail=3, encode_fail=1, flood=1, observe=6, alpha_decode=0, util=1, repeat=2),
+                decode=8, encode=4, decode_fail=3, encode_fail=1, flood=1, observe=6, alpha_decode=0, util=1, repeat=2, deep=0),
     "C07": dict(set_preset=6, set_table=14, set_bad=6, get=1, get_preset=1, get_alphabet=10, mutate=6,
-                decode=4, encode=1, decode_fail=2, encode_fail=0, flood=1, observe=3, alpha_decode=14, util=1, repeat=1),
+                decode=4, encode=1, decode_fail=2, encode_fail=0, flood=1, observe=3, alpha_decode=14, util=1, repeat=1, deep=0),
     "C06": dict(set_preset=7, set_table=12, set_bad=4, get=1, get_preset=0, get_alphabet=1, mutate=2,
-                decode=4, encode=40, decode_fail=1, encode_fail=4, flood=2, observe=1, alpha_decode=0, util=1, repeat=6),
+                decode=4, encode=40, decode_fail=1, encode_fail=4, flood=2, observe=1, alpha_decode=0, util=1, repeat=6, deep=1),
 }
 FAULT_KINDS = ("set_bad", "mutate", "decode_fail", "encode_fail", "flood")
 
@@ -598,6 +598,26 @@ class _GenState:
                     self.handles.append((idx, "attr"))
                     self.calls[idx] = dict(op)
                 yield op
+        elif kind == "deep":
+            # nesting far beyond / well below the interpreter's recursion limit: the outcome (RecursionError
+            # or not) must not depend on what ran before; unbalanced variants fail after the parser has
+            # seen all the nesting
+            n = rng.choice((1300, 1600))
+            u = rng.random()
+            if u < 0.3:
+                op = {"op": "decode", "x": "[C]" + "[Branch1][P][C]" * n, "compatible": False, "attribute": False}
+            elif u < 0.5:
+                op = {"op": "encode", "s": "C(" * n + "C" + ")C" * n, "strict": rng.random() < 0.5, "attribute": False}
+            elif u < 0.8:
+                op = {"op": "encode", "s": "C(" * rng.choice((600, 800, 1300)), "strict": rng.random() < 0.5, "attribute": False}
+            else:
+                m = rng.choice((150, 300))
+                op = {"op": "encode", "s": "C(" * m + "C" + ")C" * m, "strict": False, "attribute": False}
+            op["why"] = "deep"
+            self.all_calls.append(dict(op))
+            yield op
+            if rng.random() < 0.6:       # deep inputs come in twos: what the first leaves behind, the second meets
+                yield from self.emit("deep", idx + 1)
         elif kind == "util":
             # other public entry points in between (pure utilities; results recorded, not judged:
             # they are history, not subject)
